@@ -30,7 +30,10 @@ SHARD = 400
 RULE = ("sequential histories over 3 module names with ops {extract, insert (fresh or re-used module object), remove} "
         "for several assignments of glue kinds (module / built-in / both / none / raising) -- exhaustive up to 6 ops in the "
         "thorough tier, strided in quick -- plus random histories (8-24 ops, 4 names) that add registrations at any time, "
-        "replacements, None entries, glue with import side effects and BaseException; concurrent cases: 2-4 real threads, "
+        "replacements, odd sys.modules entries at arbitrary scan positions (None, an object without __dict__, modules whose every "
+        "attribute access raises ModuleNotFoundError / RuntimeError / ValueError, a non-callable _stackscope_install_glue_), "
+        "glue with import side effects and BaseException; two exhaustive kind assignments put such entries (with a pending "
+        "built-in) between ordinary modules; concurrent cases: 2-4 real threads, "
         "every scheduling decision (which thread runs to its next checkpoint / next environment op / blocked-probe) taken "
         "from an enumerated or random choice list. distinct = distinct descriptors; non-trivial = the model run calls at "
         "least one glue function")
@@ -234,6 +237,51 @@ def _env():
     return _ENV
 
 
+ODD = ("nodict", "slots", "lazy")     # entries without a usable __dict__: no module-provided glue (model: ONoDict)
+_LAZY_EXC = {"import": ModuleNotFoundError, "runtime": RuntimeError, "value": ValueError}
+
+
+def _make_object(env, case, o, spec):
+    """the real sys.modules entry for an object spec:
+    ["mod", glue|None]  ordinary module, optionally with _stackscope_install_glue_
+    ["nodict"]          None (import blocked)
+    ["slots"]           an object without __dict__
+    ["lazy", exc]       a module whose every attribute access (incl. __dict__) raises exc, like a
+                        LazyLoader module whose deferred import fails
+    ["badglue"]         a module whose _stackscope_install_glue_ is not callable (the routine pops it, the
+                        'call' raises TypeError: modelled as a module glue that raises)"""
+    kind = spec[0]
+    if kind == "nodict":
+        return None
+    if kind == "slots":
+        class Slotted(object):
+            __slots__ = ()
+        return Slotted()
+    if kind == "lazy":
+        exc = _LAZY_EXC[spec[1]]
+
+        class Lazy(env.types.ModuleType):
+            def __getattribute__(self, attr):
+                if attr in ("__class__", "__name__"):
+                    return object.__getattribute__(self, attr)
+                raise exc("deferred import of %s failed" % object.__getattribute__(self, "__name__"))
+        return Lazy("_c17_obj%d" % o)
+    m = env.types.ModuleType("_c17_obj%d" % o)
+    if kind == "badglue":
+        m._stackscope_install_glue_ = 42
+    elif spec[1] is not None:
+        m._stackscope_install_glue_ = case._mkfn("M", o, spec[1])
+    return m
+
+
+def _mspec(objs, o):
+    """glue behaviour of object o as the model sees it"""
+    sp = objs[o]
+    if sp[0] == "badglue":
+        return ["raise", []]
+    return sp[1] if sp[0] == "mod" else None
+
+
 class _Case:
     def __init__(self, env, desc):
         self.env, self.desc = env, desc
@@ -244,15 +292,12 @@ class _Case:
         self.nreg = 0
         self.callname = {}       # thread ident -> name of the last glue:call checkpoint
         self.untimely = []
+        self.escaped = []        # types of exceptions (other than the glue's own) that escaped an extraction
         self.present = {}
         for o, spec in enumerate(desc["objs"]):
-            if spec[0] == "nodict":
-                self.objs[o] = None
-            else:
-                m = env.types.ModuleType("_c17_obj%d" % o)
-                if spec[1] is not None:
-                    m._stackscope_install_glue_ = self._mkfn("M", o, spec[1])
-                self.objs[o] = m
+            m = _make_object(env, self, o, spec)
+            self.objs[o] = m
+            if m is not None:
                 self.objid[id(m)] = o
 
     # ---- glue functions
@@ -321,7 +366,15 @@ class _Case:
     def showwarning(self, message, category, filename, lineno, file=None, line=None):
         m = _WARN.match(str(message))
         if m and category is RuntimeWarning:
-            self.log.append(["W", m.group(1) == "module-provided", int(m.group(2))])
+            modkind, n = m.group(1) == "module-provided", int(m.group(2))
+            if modkind and not (self.log and self.log[-1][0] == "M" and self.log[-1][2] == n):
+                # nothing logged itself as called: the attribute was not callable (TypeError);
+                # abstraction: the attempted call of object o is a call that raises
+                cur = self.env.sys.modules.get(NNAME % n)
+                o = self.objid.get(id(cur)) if cur is not None else None
+                if o is not None and self.desc["objs"][o][0] == "badglue" and "TypeError" in str(message):
+                    self.log.append(["M", o, n])
+            self.log.append(["W", modkind, n])
         else:
             self.log.append(["W?", str(category), str(message)[:80]])
 
@@ -334,8 +387,11 @@ class _Case:
                 continue
             n = int(k[6:])
             obj = sysm[k]
-            d = getattr(obj, "__dict__", None)
-            if isinstance(d, dict) and "_stackscope_install_glue_" in d:
+            try:
+                d = obj.__dict__
+            except Exception:
+                d = None
+            if isinstance(d, dict) and callable(d.get("_stackscope_install_glue_")):
                 exp.append(["M", self.objid[id(obj)], n])
             elif k in pend:
                 exp.append(["B", None, n])   # identity resolved through the log (any built-in call for n)
@@ -374,6 +430,9 @@ def _run_seq(env, case, desc):
                 case.extraction()
             except (GlueBase, GlueErr):
                 ok = False
+            except Exception as ex:       # anything else that escapes extract() is an observation, not a harness error
+                ok = False
+                case.escaped.append(type(ex).__name__)
             case.log.append(["R", 0, ok])
             if ok:
                 case.check_timely(exp, xid)
@@ -421,6 +480,9 @@ def _run_conc(env, case, desc):
                 case.extraction()
             except (GlueBase, GlueErr):
                 ok = False
+            except Exception as ex:
+                ok = False
+                case.escaped.append(type(ex).__name__)
             except BaseException as ex:  # fail closed
                 errors.append(repr(ex))
                 ok = False
@@ -439,6 +501,9 @@ def _run_conc(env, case, desc):
                 case.extraction()
             except (GlueBase, GlueErr):
                 ok = False
+            except Exception as ex:
+                ok = False
+                case.escaped.append(type(ex).__name__)
             case.log.append(["R", 9, ok])
             labels.append(["F", 9])
             stops.append([6, 1 if ok else 0, False])
@@ -575,7 +640,7 @@ def run_case(desc):
         env.glue.builtin_glue_pending.clear()
         env.glue.builtin_glue_pending.update(env.saved_pending)
     return {"log": case.log, "labels": labels, "stops": stops, "final": final,
-            "bcur": {str(k): v for k, v in case.bcur.items()}, "untimely": case.untimely}
+            "bcur": {str(k): v for k, v in case.bcur.items()}, "untimely": case.untimely, "escaped": case.escaped}
 
 
 # =============================================================== direct oracles (implementation alone)
@@ -601,7 +666,7 @@ def _oracle(desc, obs):
             if cur is not None and not (desc["mode"] == "conc" and f4_pattern(desc)):
                 if any(x[0] == "M" and x[1] == cur and x[2] == e[2] for x in log):
                     out.setdefault("both", "module object %d (name %d) got its own glue AND built-in glue %d" % (cur, e[2], e[1]))
-                if objs[cur][0] == "mod" and objs[cur][1] is not None and not any(x[0] == "M" and x[1] == cur for x in log[:i]):
+                if _mspec(objs, cur) is not None and not any(x[0] == "M" and x[1] == cur for x in log[:i]):
                     out.setdefault("prefers", "built-in glue %d ran for name %d although module object %d offered its own glue"
                                    % (e[1], e[2], cur))
         if e[0] == "I":
@@ -611,7 +676,7 @@ def _oracle(desc, obs):
                 out.setdefault("both", "built-in glue %d ran at registration for name %d and module object %d ran its own glue"
                                % (e[1], e[2], cur))
         if e[0] in ("M", "B"):
-            spec = objs[e[1]][1] if e[0] == "M" else (desc["bfns"][e[1]] if e[1] < len(desc["bfns"]) else ["ok", []])
+            spec = _mspec(objs, e[1]) if e[0] == "M" else (desc["bfns"][e[1]] if e[1] < len(desc["bfns"]) else ["ok", []])
             if spec[0] == "raise":
                 nxt = log[i + 1] if i + 1 < len(log) else None
                 if nxt != ["W", e[0] == "M", e[2]]:
@@ -622,11 +687,13 @@ def _oracle(desc, obs):
             prev = log[i - 1] if i else None
             spec = None
             if prev and prev[0] == "M":
-                spec = objs[prev[1]][1]
+                spec = _mspec(objs, prev[1])
             elif prev and prev[0] == "B":
                 spec = desc["bfns"][prev[1]] if prev[1] < len(desc["bfns"]) else None
             if not spec or spec[0] != "base":
                 out.setdefault("warn", "an exception escaped from the extraction (event %d) without a BaseException glue" % i)
+    if obs.get("escaped"):
+        out["warn"] = "extract() raised %s: the scan was abandoned (a sys.modules entry must never make extraction fail)" % obs["escaped"][0]
     if obs["untimely"]:
         x = obs["untimely"][0]
         out["timely"] = ("glue %s of module name %d was present and pending when extraction %s started but had not run "
@@ -708,8 +775,8 @@ def coq_case(desc, obs):
         return None
     if any(e[0] in ("M", "B") and e[2] < 0 for e in obs["log"]):
         obs = dict(obs, log=[["A", 998]])
-    objs = clist(["ONoDict" if o[0] == "nodict" else "OMod %s" % copt(_c_fn(o[1]) if o[1] is not None else None)
-                  for o in desc["objs"]])
+    objs = clist(["ONoDict" if o[0] in ODD else "OMod %s" % copt(_c_fn(_mspec(desc["objs"], i)) if _mspec(desc["objs"], i) is not None else None)
+                  for i, o in enumerate(desc["objs"])])
     bfns = clist([_c_fn(f) for f in desc["bfns"]])
     return "mkcase (mkworld 1 %s %s) %s\n  %s\n  %s\n  %s %s" % (
         objs, bfns, cbool(desc.get("scanned", True)),
@@ -720,13 +787,17 @@ def coq_case(desc, obs):
 
 
 # =============================================================== generators
-KINDSETS = [("MB", "B", "M"), ("M", "Mr", "Br"), ("B", "N", "MB")]
+KINDSETS = [("MB", "B", "M"), ("M", "Mr", "Br"), ("B", "N", "MB"), ("LzB", "M", "SlB"), ("Bad", "LvB", "MB")]
 
 
 def _kind_spec(kind):
-    """-> (module glue spec | None, built-in spec | None)"""
-    return {"M": (["ok", []], None), "B": (None, ["ok", []]), "MB": (["ok", []], ["ok", []]), "N": (None, None),
-            "Mr": (["raise", []], None), "Br": (None, ["raise", []])}[kind]
+    """-> (object spec, built-in spec | None)"""
+    ok = ["ok", []]
+    return {"M": (["mod", ok], None), "B": (["mod", None], ok), "MB": (["mod", ok], ok), "N": (["mod", None], None),
+            "Mr": (["mod", ["raise", []]], None), "Br": (["mod", None], ["raise", []]),
+            # odd sys.modules entries, with a pending built-in that must still run exactly once
+            "LzB": (["lazy", "import"], ok), "LvB": (["lazy", "value"], ok), "SlB": (["slots"], ok),
+            "Bad": (["badglue"], None)}[kind]
 
 
 def history_case(word, kinds, reuse, via="direct", gen="exh"):
@@ -746,7 +817,7 @@ def history_case(word, kinds, reuse, via="direct", gen="exh"):
                 o = per_name[n]
             else:
                 o = len(objs)
-                objs.append(["mod", _kind_spec(kinds[n])[0]])
+                objs.append(list(_kind_spec(kinds[n])[0]))
                 per_name[n] = o
             ops.append(["I", n, o])
         else:
@@ -806,7 +877,9 @@ def random_history(rng, nn=4, via="direct"):
     objs = []
     for _ in range(no):
         r = rng.random()
-        objs.append(["nodict"] if r < 0.1 else ["mod", None] if r < 0.3 else ["mod", rand_fn(rng, nn, no)])
+        objs.append(["nodict"] if r < 0.05 else ["slots"] if r < 0.09 else
+                    ["lazy", rng.choice(["import", "runtime", "value"])] if r < 0.18 else
+                    ["badglue"] if r < 0.22 else ["mod", None] if r < 0.36 else ["mod", rand_fn(rng, nn, no)])
     bfns = [rand_fn(rng, nn, no) for _ in range(6)]
     fixed = {}
     if clean:
@@ -849,7 +922,8 @@ def conc_case(rng, nthreads, choices, *, removals=False, probe=False, via="direc
     objs = []
     for _ in range(no):
         r = rng.random()
-        objs.append(["mod", None] if r < 0.2 else
+        objs.append(["lazy", rng.choice(["import", "runtime", "value"])] if r < 0.08 else
+                    ["slots"] if r < 0.11 else ["mod", None] if r < 0.25 else
                     ["mod", [rng.choices(["ok", "raise", "base"], [0.75, 0.2, 0.05])[0],
                              ([["I", 3, rng.randrange(no)]] if rng.random() < 0.2 else [])]])
     setup, envq, bfns = [], [], []
@@ -888,6 +962,16 @@ def conc_case(rng, nthreads, choices, *, removals=False, probe=False, via="direc
 def specials():
     out = []
     M = ["mod", ["ok", []]]
+    # odd sys.modules entries in the middle of the scan order, most with a pending built-in: every entry is
+    # skipped as far as module-provided glue goes, its built-in still runs once, the neighbours are served
+    out.append({"mode": "seq", "via": "extract", "scanned": True, "gen": "special",
+                "objs": [M, ["lazy", "import"], ["slots"], ["badglue"], ["nodict"], M, ["lazy", "runtime"], ["lazy", "value"]],
+                "bfns": [["ok", []], ["ok", []], ["ok", []], ["raise", []]],
+                "ops": [["G", 1], ["G", 2], ["G", 4], ["G", 6], ["I", 0, 0], ["I", 1, 1], ["I", 2, 2], ["I", 3, 3], ["I", 4, 4],
+                        ["I", 6, 6], ["I", 7, 7], ["I", 5, 5], ["X"], ["X"]]})
+    out.append({"mode": "seq", "via": "direct", "scanned": True, "gen": "special",
+                "objs": [["lazy", "value"], M], "bfns": [["ok", []]],
+                "ops": [["I", 0, 0], ["G", 0], ["I", 1, 1], ["X"]]})
     # F4: remove A, add B, extract
     out.append({"mode": "seq", "via": "extract", "scanned": True, "objs": [M, M], "bfns": [], "gen": "special",
                 "ops": [["I", 0, 0], ["X"], ["R", 0], ["I", 1, 1], ["X"], ["X"], ["I", 2, 0], ["X"]]})
